@@ -160,6 +160,8 @@ func (ctx *StorageExecuteContext) Release() {
 type TagFilterResult struct {
 	TagKeyID    tag.KeyID
 	TagValueIDs *roaring.Bitmap
+	// KeyNotFound marks that the tag key of the filter does not exist under current node(the filter matches nothing).
+	KeyNotFound bool
 }
 
 // TimeSegmentContext represents time segment context
